@@ -61,7 +61,7 @@ impl Method for VWMA {
 
 	fn new(length: Self::Params, &value: &Self::Input) -> Result<Self, Error> {
 		match length {
-			0 => Err(Error::WrongMethodParameters),
+			0 | PeriodType::MAX => Err(Error::WrongMethodParameters),
 			length => Ok(Self {
 				sum: value.0 * value.1 * length as ValueType,
 				vol_sum: value.1 * length as ValueType,
